@@ -50,6 +50,10 @@ struct Sched {
     starve: Option<(usize, u64)>,
     recent: std::collections::VecDeque<(usize, &'static str, bool)>,
     log: Vec<(u64, usize, &'static str, u64)>,
+    starve_on_drop: u32,
+    drop_spins: u32,
+    blocked_picks: u32,
+    last_blocked_pick: Option<usize>,
 }
 
 static SCHED: Mutex<Option<Sched>> = Mutex::new(None);
@@ -104,6 +108,10 @@ pub fn begin(seed: u64, stickiness: u8, replay: Option<Vec<u16>>, max_steps: u64
         starve,
         recent: Default::default(),
         log: vec![],
+        starve_on_drop: 0,
+        drop_spins: 0,
+        blocked_picks: 0,
+        last_blocked_pick: None,
     };
     EPOCH.fetch_add(1, std::sync::atomic::Ordering::SeqCst);
     *SCHED.lock().unwrap() = Some(s);
@@ -125,6 +133,13 @@ pub fn end() -> Record {
         site_hits: s.site_hits,
         blocked_yields: s.blocked_yields,
         log: s.log,
+    }
+}
+
+/// Keep every other thread off the CPU for the first `n` iterations of Database::drop's wait loop
+pub fn set_starve_on_drop(n: u32) {
+    if let Some(s) = SCHED.lock().unwrap().as_mut() {
+        s.starve_on_drop = n;
     }
 }
 
@@ -182,7 +197,9 @@ impl Sched {
             }
         } else {
             let mut cands = live.clone();
-            if me_blocked && cands.len() > 1 {
+            // a blocked thread usually lets the others run first - but not always (a spinning
+            // thread on a real machine can get several turns in a row)
+            if me_blocked && cands.len() > 1 && self.rng.below(6) != 0 {
                 cands.retain(|i| *i != me);
             }
             if let Some((victim, until)) = self.starve {
@@ -212,6 +229,29 @@ impl Sched {
                 cands[self.rng.usize(cands.len())]
             }
         };
+        // weak fairness, whatever produced the choice (PRNG, replayed list, minimiser): a thread
+        // that is (believed to be) blocked is not chosen over and over while other threads wait;
+        // "blocked" labels can be stale, so after a few consecutive picks of the same blocked
+        // thread the other live threads get a turn in round-robin order. Without this an unfair
+        // schedule would be reported as "no progress".
+        let mut choice = choice;
+        if matches!(self.threads[choice], St::Blocked(_)) || (choice == me && me_blocked) {
+            if self.last_blocked_pick == Some(choice) {
+                self.blocked_picks += 1;
+            } else {
+                self.last_blocked_pick = Some(choice);
+                self.blocked_picks = 1;
+            }
+            if self.blocked_picks > 3 && live.len() > 1 {
+                let pos = live.iter().position(|i| *i == choice).unwrap_or(0);
+                choice = live[(pos + 1) % live.len()];
+                self.last_blocked_pick = Some(choice);
+                self.blocked_picks = 1;
+            }
+        } else {
+            self.last_blocked_pick = None;
+            self.blocked_picks = 0;
+        }
         self.choices.push(choice as u16);
         choice
     }
@@ -237,6 +277,14 @@ fn switch_from(me: usize, site: &'static str, payload: u64, blocked: bool) {
     if site.ends_with("_seqno") {
         s.commit_order.push((payload, me));
     }
+    if (site == "db_drop_wait" || site == "close_channel") && s.drop_spins < s.starve_on_drop && s.replay.is_none() && !(site == "close_channel" && blocked) {
+        // a loaded machine: the dropping thread spins, nobody else gets the CPU
+        if site == "db_drop_wait" {
+            s.drop_spins += 1;
+        }
+        s.choices.push(me as u16);
+        return;
+    }
     if blocked {
         s.threads[me] = St::Blocked(site);
         s.blocked_yields += 1;
@@ -253,7 +301,8 @@ fn switch_from(me: usize, site: &'static str, payload: u64, blocked: bool) {
             .enumerate()
             .map(|(i, t)| format!("t{i}:{t:?}"))
             .collect();
-        s.failure = Some(format!("no-progress: every live thread is blocked: {}", desc.join(" ")));
+        let tr: Vec<String> = s.recent.iter().map(|(t, site, b)| format!("t{t}:{site}{}", if *b { "(b)" } else { "" })).collect();
+        s.failure = Some(format!("no-progress: every live thread is blocked: {} || last events: {}", desc.join(" "), tr.join(" ")));
         CV.notify_all();
         return;
     }
@@ -307,7 +356,11 @@ pub fn lock_probe(site: &'static str, probe: &mut dyn FnMut() -> bool) {
         if probe() {
             return;
         }
-        if failure().is_some() {
+        if let Some(f) = failure() {
+            if site == "close_channel" {
+                // the real send would block in the kernel forever: unwind out of the drop
+                panic!("fjsim: abandoned Database drop (close message cannot be sent): {f}");
+            }
             return;
         }
         switch_from(me, site, 1, true);
